@@ -148,7 +148,16 @@ func (p *pipe) receiver() {
 					// NB: If we ever do work to break
 					// up the locking, we will need to
 					// revisit this.
-					c.recvQ <- m
+					// That guarantee does not hold for a
+					// zero length queue with nobody
+					// receiving, and we must never block
+					// while holding the socket lock: drop
+					// the message then.
+					select {
+					case c.recvQ <- m:
+					default:
+						m.Free()
+					}
 				}
 			}
 		}
